@@ -54,10 +54,10 @@ def sql_structure(run, prop):
         res, _, _ = stage_groups(run, cases, sql=True, name="parse_deep")
         stage_judge_trees(run, res, prop, cases, name="judge_deep")
     else:
-        cases, g = stage_gen_trees(run, ["feq", "feqint", "frange", "fxirange", "flist"], 2, ws=0, suffix=False)
+        cases, g = stage_gen_trees(run, ["feq", "feqint", "frange", "fxirange"], 2, ws=0, suffix=False)
         res, _, _ = stage_groups(run, cases, sql=True)
         stage_judge_trees(run, res, prop, cases)
-        for depth, n in [(3, 20000), (5, 6000)]:
+        for depth, n in [(3, 6000), (5, 2000)]:
             cases, g = stage_gen_trees(run, ATOM_KINDS, depth, ws=0, sample=n, suffix=False, name="gen_deep%d" % depth)
             res, _, _ = stage_groups(run, cases, sql=True, name="parse_deep%d" % depth)
             stage_judge_trees(run, res, prop, cases, name="judge_deep%d" % depth)
